@@ -846,7 +846,7 @@ pub fn check_main(args: &[String]) -> i32 {
         let mut mcase = m.case.clone();
         let mut confirm = String::new();
         if let Some(bin) = crate::fidelity::real_bin() {
-            if mcase.kind != "multi" && mcase.kind != "env" && !m.class.contains("not_reproducible")
+            if mcase.kind != "multi" && mcase.kind != "env" && mcase.kind != "parser" && !m.class.contains("{direct:") && !m.class.contains("not_reproducible")
                 && crate::fidelity::pipe_expressible(&mcase.scn) && !m.class.contains("worker_died") {
                 let hist = crate::world::run_cli(&mcase.scn);
                 if let Some(r) = crate::fidelity::real_run(&mcase.scn, &bin, &scratch_dir, "confirm", Duration::from_secs(20)) {
